@@ -601,3 +601,10 @@ def run(rep: Report, tier: str):
     check_node_shape(repo, rep)
     check_total_helpers(repo, rep, tier)
     check_opcode_properties(repo, rep)
+
+    # end to end, interpreted last: parse -> decompile -> every analysis -> report, over the corpus and the assembled programs
+    from ..vmworlds import report_safety
+
+    rep.rule("C19.end-to-end", "every corpus pickle that decompiles gets a Severity verdict, findings with severity and message, and a JSON-serialisable report", 1)
+    report_safety(repo, rep, "C19.end-to-end", tier)
+
